@@ -9,18 +9,30 @@ import (
 // VerifC19_update_team: the team address can be changed only by the current team address.
 func VerifC19_update_team() {
 	ctx, k := vDisputeKeeper(newVBank(false), nil, nil)
-	team := ndAddr("team")
+	team := ndByteSlice("team", 20)
 	must(k.Params.Set(ctx, types.Params{TeamAddress: team}))
-	claimed := ndAddr("claimedCurrent")
-	newTeam := ndAddr("newTeam")
+	claimed := ndByteSlice("claimedCurrent", 20)
+	newTeam := ndByteSlice("newTeam", 20)
 	_, err := NewMsgServerImpl(k).UpdateTeam(ctx, &types.MsgUpdateTeam{CurrentTeamAddress: sdk.AccAddress(claimed).String(), NewTeamAddress: sdk.AccAddress(newTeam).String()})
 	p, _ := k.Params.Get(ctx)
 	if err == nil {
 		ndReach("accepted")
-		ndAssert(string(claimed) == string(team), "only-the-current-team-address-changes-the-team")
-		ndAssert(string(p.TeamAddress) == string(newTeam), "team-address-updated")
+		ndAssert(vBytesEq20(claimed, team), "only-the-current-team-address-changes-the-team")
+		ndAssert(vBytesEq(p.TeamAddress, newTeam), "team-address-updated")
 	} else {
 		ndReach("rejected")
-		ndAssert(string(p.TeamAddress) == string(team), "rejected-request-changes-nothing")
+		ndAssert(vBytesEq(p.TeamAddress, team), "rejected-request-changes-nothing")
 	}
+}
+
+// vBytesEq: equality of two byte slices (branch-free over the contents)
+func vBytesEq(a, b []byte) bool {
+	if len(a) != len(b) {
+		return false
+	}
+	eq := true
+	for i := range a {
+		eq = ndAnd(eq, a[i] == b[i])
+	}
+	return eq
 }
